@@ -684,6 +684,8 @@ def ctor_outcome(c):
     shape = SHAPES[c["shape"]]
     other = {(): (2,), (3,): (4,), (2, 3): (3, 2)}[shape]
     t0, t1 = {"lt": (0.0, 1.0), "eq": (0.5, 0.5), "gt": (1.0, 0.0)}[c["order"]]
+    if c.get("ends") == "off":        # end points off the tolerance grid (rounding outwards and inwards), straddling zero
+        t0, t1 = {"lt": (-1.0 / 3.0, 2.0 / 3.0), "eq": (2.0 / 3.0, 2.0 / 3.0), "gt": (2.0 / 3.0, -1.0 / 3.0)}[c["order"]]
     kw = dict(t0=t0, t1=t1, tol={"neg": -1e-3, "zero": 0.0, "pos": 1e-3}[c["tol"]],
               cache_size={"none": None, "zero": 0, "one": 1, "many": 45}[c["cache"]],
               levy_area_approximation=c["levy"], halfway_tree=bool(c["halfway"]), entropy=17)
@@ -714,7 +716,8 @@ def ctor_outcome(c):
             levy = c["levy"]
             ask = _ask_fn(bm, levy)
             mid = 0.5 * (t0 + t1)
-            for (a, b) in ((t0, t1), (t0, mid), (mid, t1), (mid, mid), (t0 + 0.25 * (t1 - t0), mid), (t0, t1)):
+            for (a, b) in ((t0, t1), (t0, mid), (mid, t1), (mid, mid), (t0 + 0.25 * (t1 - t0), mid), (t0, t1),
+                           (t0 + 0.75 * (t1 - t0), t1), (t0, t0 + 0.125 * (t1 - t0))):
                 W, U, A = ask(a, b)
                 if tuple(W.shape) != tuple(shape):
                     return "query:shape"
